@@ -13,15 +13,22 @@ import (
 // steps / needs / matrix / inputs / secrets / jobs have where, and which workflow key — hence which availability row —
 // each position is checked with). A generated workflow is written twice: as YAML for the real linter and as an
 // S-expression for `aldriver visit`; every checked string ("probe") sits on its own line, and the diagnostics of
-// kind [expression] on that line are compared with the model's diagnostics for that probe.
+// kind [expression] on that line (incl. the type checks the rule puts on bool / number / template positions) are
+// compared with the model's diagnostics for that probe.
 
 type vProbe struct {
 	line int
 	key  string
 	expr string
+	kind string // "" = string template; b = bool; c = if condition; (n,<what>) = number
 }
 
-func (p vProbe) sexp() string { return fmt.Sprintf("(%d,%s,%s)", p.line, hx(p.key), hx(p.expr+" }}")) }
+func (p vProbe) sexp() string {
+	if p.kind == "" {
+		return fmt.Sprintf("(%d,%s,%s)", p.line, hx(p.key), hx(p.expr+" }}"))
+	}
+	return fmt.Sprintf("(%d,%s,%s,%s)", p.line, hx(p.key), hx(p.expr+" }}"), p.kind)
+}
 
 func sexpList(items []string) string { return "(" + strings.Join(items, ",") + ")" }
 
@@ -36,9 +43,12 @@ func (b *vBuilder) add(l string) int {
 }
 
 // probe writes `prefix${{ expr }}` on a new line and registers it.
-func (b *vBuilder) probe(prefix, expr, key string) vProbe {
+func (b *vBuilder) probe(prefix, expr, key string) vProbe { return b.probeK(prefix, expr, key, "") }
+
+// probeK: a probe whose value gets a type check on top (kind b / c / (n,what))
+func (b *vBuilder) probeK(prefix, expr, key, kind string) vProbe {
 	ln := b.add(prefix + "${{ " + expr + " }}")
-	p := vProbe{ln, key, expr}
+	p := vProbe{ln, key, expr, kind}
 	b.probes = append(b.probes, p)
 	return p
 }
@@ -332,7 +342,7 @@ func genVisitWorkflow(rng *rand.Rand) *vWorkflow {
 				pre = append(pre, b.probe("    name: ", g.expr(), "jobs.<job_id>.name").sexp())
 			}
 			if rng.Intn(2) == 0 {
-				pre = append(pre, b.probe("    if: ", g.expr(), "jobs.<job_id>.if").sexp())
+				pre = append(pre, b.probeK("    if: ", g.expr(), "jobs.<job_id>.if", "c").sexp())
 			}
 			b.add("    with:")
 			pre = append(pre, b.probe("      a: ", g.expr(), "jobs.<job_id>.with.<with_id>").sexp())
@@ -355,11 +365,17 @@ func genVisitWorkflow(rng *rand.Rand) *vWorkflow {
 			pre = append(pre, b.probe("      P: ", g.expr(), "jobs.<job_id>.env").sexp())
 		}
 		if rng.Intn(2) == 0 {
-			pre = append(pre, b.probe("    if: ", g.expr(), "jobs.<job_id>.if").sexp())
+			pre = append(pre, b.probeK("    if: ", g.expr(), "jobs.<job_id>.if", "c").sexp())
 		}
 		if rng.Intn(3) == 0 {
 			b.add("    concurrency:")
 			pre = append(pre, b.probe("      group: ", g.expr(), "jobs.<job_id>.concurrency").sexp())
+		}
+		if rng.Intn(3) == 0 {
+			pre = append(pre, b.probeK("    continue-on-error: ", g.expr(), "jobs.<job_id>.continue-on-error", "b").sexp())
+		}
+		if rng.Intn(3) == 0 {
+			pre = append(pre, b.probeK("    timeout-minutes: ", g.expr(), "jobs.<job_id>.timeout-minutes", "(n,"+hx("float number value")+")").sexp())
 		}
 		if rng.Intn(3) == 0 {
 			b.add("    container:")
@@ -426,11 +442,17 @@ func genVisitWorkflow(rng *rand.Rand) *vWorkflow {
 				ps = append(ps, b.probe(cont+"name: ", g.expr(), "jobs.<job_id>.steps.name").sexp())
 			}
 			if rng.Intn(2) == 0 {
-				ps = append(ps, b.probe(cont+"if: ", g.expr(), "jobs.<job_id>.steps.if").sexp())
+				ps = append(ps, b.probeK(cont+"if: ", g.expr(), "jobs.<job_id>.steps.if", "c").sexp())
 			}
 			if rng.Intn(2) == 0 {
 				b.add(cont + "env:")
 				ps = append(ps, b.probe(cont+"  Q: ", g.expr(), "jobs.<job_id>.steps.env").sexp())
+			}
+			if rng.Intn(4) == 0 {
+				ps = append(ps, b.probeK(cont+"continue-on-error: ", g.expr(), "jobs.<job_id>.steps.continue-on-error", "b").sexp())
+			}
+			if rng.Intn(4) == 0 {
+				ps = append(ps, b.probeK(cont+"timeout-minutes: ", g.expr(), "jobs.<job_id>.steps.timeout-minutes", "(n,"+hx("float number value")+")").sexp())
 			}
 			steps = append(steps, fmt.Sprintf("(%s,%d,%s,%s)", id, idExpr, out, sexpList(ps)))
 		}
@@ -449,8 +471,7 @@ func genVisitWorkflow(rng *rand.Rand) *vWorkflow {
 		probes: b.probes, lines: append([]string{}, b.lines...), jobStart: jobStart, jobEnd: jobEnd, jobNeeds: jobNeeds, headerEnd: headerEnd}
 }
 
-// visitCanon: `line=code|code;…` over the probes, codes sorted; diagnostics the model does not produce (type checks on
-// top of the expression's type, untrusted-input reports) are left out.
+// visitCanon: `line=code|code;…` over the probes, codes sorted; untrusted-input reports are left out (the C11 tie covers them).
 func visitCanon(w *vWorkflow, errs []*actionlint.Error) (string, bool) {
 	byLine := map[int][]string{}
 	ok := true
@@ -458,7 +479,7 @@ func visitCanon(w *vWorkflow, errs []*actionlint.Error) (string, bool) {
 		if e.Kind != "expression" {
 			continue
 		}
-		if strings.HasPrefix(e.Message, "type of expression") || strings.Contains(e.Message, "should not be evaluated in template") || strings.HasPrefix(e.Message, "\"if\" condition should be") || strings.HasPrefix(e.Message, "type of input") {
+		if strings.HasPrefix(e.Message, "\"if\" condition should be") || strings.HasPrefix(e.Message, "type of input") {
 			continue
 		}
 		code, untrusted := classifySema(e.Message)
